@@ -93,4 +93,23 @@ class HOPT(Harness):
         out.ob("later_instance_sees_its_own_defaults", not leaks and name not in other["useroptions"])
         changed = [k for k in o_after if k != "useroptions" and not (o[k] is o_after[k])]
         out.ob("earlier_instance_unchanged_by_later_construction", not changed)
+        # ---- process-history independence (C07).  One Rebinder = one process: it starts from the module/class state
+        # pybads has right after import.  The same construction must give the same options in a fresh process and
+        # after an unrelated history (an instance with a user override and one of another dimension built first).
+        def sym_same(a, b):
+            if isinstance(a, SV) or isinstance(b, SV):
+                return O.eq(a, b, 0.0)
+            return same(a, b)
+        OptF = Rebinder(eng.concrete, stubs=stubs()).cls(optmod.Options)
+        fresh = self.build(OptF, D, None)
+        OptH = Rebinder(eng.concrete, stubs=stubs()).cls(optmod.Options)
+        self.build(OptH, D, {name: v})
+        self.build(OptH, D2, None)
+        later = self.build(OptH, D, None)
+        out.ob("defaults_independent_of_process_history",
+               set(dict.keys(fresh)) == set(dict.keys(later)) and O.And(*[sym_same(fresh[k], later[k]) for k in dict.keys(fresh) if k != "useroptions"]))
+        OptU = Rebinder(eng.concrete, stubs=stubs()).cls(optmod.Options)
+        ufresh = self.build(OptU, D, {name: v})
+        out.ob("user_instance_independent_of_process_history",
+               set(dict.keys(ufresh)) == set(dict.keys(o)) and O.And(*[sym_same(ufresh[k], o[k]) for k in dict.keys(o) if k != "useroptions"]))
         return out
